@@ -279,6 +279,44 @@ fn build(c: &Choices) -> Decl {
     }
     d.layout = Layout { order: order.into_iter().map(|i| blocks[i]).collect(), trailing_comma_outer: c.commas.0, trailing_comma_inner: c.commas.1 };
     d.new_unchecked = c.derive_bits & (1 << 31) != 0;
+    // const_fn on numeric / Point declarations: custom functions must then be `const fn` paths
+    if c.derive_bits & (1 << 30) != 0 && c.derive_bits & (1 << 29) != 0 && !matches!(inner, Inner::Str | Inner::VecI32) {
+        let const_ok = |fr: &FnRef| match inner {
+            Inner::Int(_) => matches!(fr.name.as_str(), "s_clamp" | "s_wadd1" | "p_even" | "v_small"),
+            Inner::F32 | Inner::F64 => matches!(fr.name.as_str(), "s_clamp" | "p_not50"),
+            Inner::Point => matches!(fr.name.as_str(), "s_abs" | "p_xpos"),
+            _ => false,
+        };
+        let sans_ok = d.sans.iter().all(|s| matches!(s, SanSpec::With(fr) if const_ok(fr)));
+        let vals_ok = match &d.vals {
+            Vals::None => true,
+            Vals::Custom(fr) => const_ok(fr) && inner.is_int(),
+            Vals::Std(vs) => vs.iter().all(|v| match v {
+                ValSpec::Predicate(fr) => const_ok(fr),
+                _ => true,
+            }),
+        };
+        if sans_ok && vals_ok {
+            d.const_fn = true;
+            for s in d.sans.iter_mut() {
+                if let SanSpec::With(fr) = s {
+                    fr.form = FnForm::ConstPath;
+                }
+            }
+            match &mut d.vals {
+                Vals::Custom(fr) => fr.form = FnForm::ConstPath,
+                Vals::Std(vs) => {
+                    for v in vs.iter_mut() {
+                        if let ValSpec::Predicate(fr) = v {
+                            fr.form = FnForm::ConstPath;
+                        }
+                    }
+                }
+                Vals::None => {}
+            }
+            d.tags.push("random:const_fn".into());
+        }
+    }
     d.tags = vec!["random".into()];
     d
 }
